@@ -37,3 +37,95 @@ SPECS = [
         props=["C01", "C02", "C05", "C09", "C10", "C14"],
     ),
 ]
+
+from contracts.ind_simple import ATR_INV  # noqa: E402
+
+
+def R(key, j="j"):
+    return f"Rd(c, {j}, {key})"
+
+
+def NUM(key, j="j"):
+    return f"num(Rd(c, {j}, {key}))"
+
+
+BB_W = "s + period"
+SPECS += [
+    IndSpec(
+        "hexital.indicators.bbands.BBANDS",
+        params=dict(RV, period=("int", None), input_value=("name", None), s=("int", None)),
+        ctor={"skip": ("s",)},
+        lets=dict(LETS, X="input_value", w=BB_W, SMA="f'SMA_{period}'", SD="f'STDEV_{period}'"),
+        extra_pre=dict(PRE_RV, **{"period>=2": "period >= 2"}),
+        inputs={"X": ("s", "num")},
+        subs={"self.sub_indicators[f'STDEV_{period}']": {"role": "prior", "ghost": {"s": "s"}},
+              "self.sub_indicators[f'SMA_{period}']": {"role": "prior", "ghost": {"s": "s"}}},
+        inv={
+            "dict": (f"isdict({R('N')})", ["C05", "C09"]),
+            "presence": (f"iff({R('''f'{N}.BBM' ''')} is not None, j >= w) and iff({R('''f'{N}.BBL' ''')} is not None, j >= w) and iff({R('''f'{N}.BBU' ''')} is not None, j >= w)", ["C05", "C09"]),
+            "middle-is-sma": (f"implies(j >= w, isfloat({R('''f'{N}.BBM' ''')}) and Abs({NUM('''f'{N}.BBM' ''')} - {NUM('SMA')}) <= eps)", ["C05"]),
+            "lower": (f"implies(j >= w, isfloat({R('''f'{N}.BBL' ''')}) and Abs({NUM('''f'{N}.BBL' ''')} - ({NUM('SMA')} - 2 * {NUM('SD')})) <= eps)", ["C05"]),
+            "upper": (f"implies(j >= w, isfloat({R('''f'{N}.BBU' ''')}) and Abs({NUM('''f'{N}.BBU' ''')} - ({NUM('SMA')} + 2 * {NUM('SD')})) <= eps)", ["C05"]),
+            "ordered": (f"implies(j >= w, {NUM('''f'{N}.BBL' ''')} <= {NUM('''f'{N}.BBM' ''')} and {NUM('''f'{N}.BBM' ''')} <= {NUM('''f'{N}.BBU' ''')})", ["C10"]),
+        },
+        variants=[{}, {"input_value": "dotted"}],
+        window="0",
+        props=["C01", "C02", "C05", "C09", "C10", "C14"],
+    ),
+    IndSpec(
+        "hexital.indicators.stdevthres.StandardDeviationThreshold",
+        params=dict(RV, period=("int", None), multiplier=("float", None), input_value=("name", None), s=("int", None)),
+        ctor={"skip": ("s",)},
+        lets=dict(LETS, X="input_value", w="s + period", SD="f'{N}_stdev'"),
+        extra_pre=dict(PRE_RV, **{"period>=2": "period >= 2", "multiplier>0": "multiplier > 0"}),
+        inputs={"X": ("s", "num")},
+        subs={"self.sub_indicators[f'{N}_stdev']": {"role": "prior", "ghost": {"s": "s"}}},
+        inv={
+            "bool": (f"isbool({R('N')})", ["C05", "C09"]),
+            "false-during-warm-up": (f"implies(j < w, {R('N')} == False)", ["C05"]),
+            "flag": (f"implies(j >= w, iff({R('N')} == True, Abs({NUM('X')} - {NUM('X', 'j - 1')}) > {NUM('SD')} * multiplier))", ["C05"]),
+        },
+        variants=[{}, {"input_value": "dotted"}],
+        window="1",
+        props=["C01", "C02", "C05", "C09", "C10", "C14"],
+    ),
+    IndSpec(
+        "hexital.indicators.kc.KC",
+        params=dict(RV, period=("int", None), multiplier=("float", None), input_value=("name", None), s=("int", None)),
+        ctor={"skip": ("s",)},
+        lets=dict(LETS, X="input_value", w="Max(s + period - 1, period)", EMA="f'{N}_EMA'", ATR="f'{N}_ATR'"),
+        extra_pre=dict(PRE_RV, **{"period>=2": "period >= 2", "multiplier>0": "multiplier > 0"}),
+        inputs={"X": ("s", "num")},
+        subs={"self.sub_indicators[f'{N}_ATR']": {"role": "prior"},
+              "self.sub_indicators[f'{N}_EMA']": {"role": "prior", "ghost": {"s": "s"}}},
+        inv={
+            "dict": (f"isdict({R('N')})", ["C05", "C09"]),
+            "presence": (f"iff({R('''f'{N}.band' ''')} is not None, j >= w) and iff({R('''f'{N}.lower' ''')} is not None, j >= w) and iff({R('''f'{N}.upper' ''')} is not None, j >= w)", ["C05", "C09"]),
+            "band-is-ema": (f"implies(j >= w, isfloat({R('''f'{N}.band' ''')}) and Abs({NUM('''f'{N}.band' ''')} - {NUM('EMA')}) <= eps)", ["C05"]),
+            "lower": (f"implies(j >= w, isfloat({R('''f'{N}.lower' ''')}) and Abs({NUM('''f'{N}.lower' ''')} - ({NUM('EMA')} - multiplier * {NUM('ATR')})) <= eps)", ["C05"]),
+            "upper": (f"implies(j >= w, isfloat({R('''f'{N}.upper' ''')}) and Abs({NUM('''f'{N}.upper' ''')} - ({NUM('EMA')} + multiplier * {NUM('ATR')})) <= eps)", ["C05"]),
+            "ordered": (f"implies(j >= w, {NUM('''f'{N}.lower' ''')} <= {NUM('''f'{N}.band' ''')} and {NUM('''f'{N}.band' ''')} <= {NUM('''f'{N}.upper' ''')})", ["C10"]),
+        },
+        variants=[{}, {"input_value": "dotted"}],
+        window="0",
+        props=["C01", "C02", "C05", "C09", "C10", "C14"],
+    ),
+    IndSpec(
+        "hexital.indicators.vwap.VWAP",
+        params=dict(RV, period=("int", None)),
+        lets=dict(LETS, PV="f'{N}_data.pv'", VV="f'{N}_data.vol'"),
+        extra_pre=dict(PRE_RV),
+        helpers=["f'{N}_data'"],
+        inv={
+            "data-shape": (f"isnum({R('PV')}) and isnum({R('VV')}) and {NUM('VV')} >= 0", ["C06", "C09"]),
+            "cumulative-price-volume": (f"{NUM('PV')} == ({NUM('PV', 'j - 1')} if j >= 1 else 0) + {VOL} * ({H} + {L} + {C}) / 3", ["C06"]),
+            "cumulative-volume": (f"{NUM('VV')} == ({NUM('VV', 'j - 1')} if j >= 1 else 0) + {VOL}", ["C06"]),
+            "presence": (f"isnum({R('N')})", ["C06", "C09"]),
+            "rounded": ROUNDED,
+            "vwap": (f"implies({NUM('VV')} > 0, Abs({NUM('N')} - {NUM('PV')} / {NUM('VV')}) <= eps)", ["C06"]),
+            "vwap-no-volume": (f"implies({NUM('VV')} == 0, Abs({NUM('N')} - {NUM('PV')}) <= eps)", ["C06"]),
+        },
+        window="1",
+        props=["C01", "C02", "C06", "C09", "C10", "C14"],
+    ),
+]
